@@ -1,6 +1,7 @@
 package main
 
 import (
+	"math"
 	"encoding/json"
 	"flag"
 	"fmt"
@@ -873,6 +874,40 @@ func cmdSelfcheck() int {
 		{Ne(SExt(Extract(x, 31, 0), 64), x), Sat},
 	}
 	bad := 0
+	// the int -> float64 circuit against the Go conversion on boundary and pseudo-random values
+	vals := []uint64{0, 1, 2, 3, 1 << 52, 1<<53 - 1, 1 << 53, 1<<53 + 1, 1<<53 + 2, 1<<53 + 3, 1<<54 + 2, 1<<54 + 3, 1<<54 + 6,
+		1<<63 - 1, 1 << 63, 1<<63 + 1, 1<<64 - 1, 1<<64 - 2, 1<<64 - 1024, 1<<64 - 1025, 0x7FFFFFFFFFFFFC00, 0x7FFFFFFFFFFFFDFF, 0x7FFFFFFFFFFFFE00}
+	rs := uint64(0x9E3779B97F4A7C15)
+	for i := 0; i < 20000; i++ {
+		rs ^= rs << 13
+		rs ^= rs >> 7
+		rs ^= rs << 17
+		vals = append(vals, rs>>(uint(i)%64))
+	}
+	for _, c := range vals {
+		if got, _ := i2f64bits(BV(64, c), false).Const(); got != math.Float64bits(float64(c)) {
+			fmt.Printf("selfcheck: float64(uint64(%#x)): circuit %#x, Go %#x\n", c, got, math.Float64bits(float64(c)))
+			bad++
+		}
+		if got, _ := i2f64bits(BV(64, c), true).Const(); got != math.Float64bits(float64(int64(c))) {
+			fmt.Printf("selfcheck: float64(int64(%#x)): circuit %#x, Go %#x\n", c, got, math.Float64bits(float64(int64(c))))
+			bad++
+		}
+	}
+	// and symbolically: two int64 below 2^53 in magnitude convert to equal floats only if equal
+	{
+		lim := BV(64, 1<<53)
+		inRange := func(v *Term) *Term { return BAnd(Slt(v, lim), Sgt(v, Neg(lim))) }
+		q := BAnd(BAnd(inRange(x), inRange(y)), BAnd(Eq(i2f64bits(x, true), i2f64bits(y, true)), Ne(x, y)))
+		qs = append(qs, struct {
+			t    *Term
+			want SatResult
+		}{q, Unsat})
+		qs = append(qs, struct {
+			t    *Term
+			want SatResult
+		}{BAnd(Eq(i2f64bits(x, true), i2f64bits(y, true)), Ne(x, y)), Sat})
+	}
 	for _, name := range []string{"z3", "z3-new", "cvc5"} {
 		for i, q := range qs {
 			r := RunOneShot(name, QueryText(nil, q.t), 20000)
